@@ -5,6 +5,8 @@
 package wire
 
 import (
+	"verifharness/core"
+
 	"errors"
 	"io"
 	"net"
@@ -492,12 +494,19 @@ func Handshake(w *Wire, a, b *Router, watchdog time.Duration) (ra, rb SetupResul
 		mu.Unlock()
 		stuck := (aDone || w.pa.idle()) && (bDone || w.pb.idle()) && !(aDone && bDone) && !w.AnyParked()
 		if stuck {
-			// re-check after a grace period: idle must persist
-			time.Sleep(5 * time.Millisecond)
-			mu.Lock()
-			aDone, bDone = ra.Done, rb.Done
-			mu.Unlock()
-			if (aDone || w.pa.idle()) && (bDone || w.pb.idle()) && !(aDone && bDone) && !w.AnyParked() {
+			// re-check over a grace period: idle must persist (a tree may write from a goroutine of its own that has
+			// not been given a processor yet on a loaded machine; "nobody reads or writes" only means stuck if it
+			// stays that way)
+			t0 := time.Now()
+			still := true
+			for k := 0; k < 20 && still; k++ {
+				time.Sleep(3 * time.Millisecond)
+				mu.Lock()
+				aDone, bDone = ra.Done, rb.Done
+				mu.Unlock()
+				still = (aDone || w.pa.idle()) && (bDone || w.pb.idle()) && !(aDone && bDone) && !w.AnyParked()
+			}
+			if still && !core.StalledSince(t0) {
 				cut.Store(true)
 				w.A.Cut()
 				w.B.Cut()
